@@ -94,7 +94,9 @@ type funcVerifier struct {
 	nBase       int
 	idCount     map[string]int
 
+	interior []interiorPtr // &s[i] pointers created so far
 	boxed    map[*types.Var]bool
+	copyArr  map[*ast.SliceExpr]*types.Var // copy(x[:], src) on a local array x, modelled in place
 	volatile map[*types.Var]bool
 	volField map[string]bool
 
@@ -127,6 +129,7 @@ type funcVerifier struct {
 	wildHavoc   bool // the whole heap was forgotten outside a loop head (un-contracted callee, undeclared lock)
 	inLoopHavoc bool
 	ghostTypes  map[string]types.Type
+	lockSnaps   []*State
 
 	notes   []string // abstractions applied (reported in evidence)
 	reject  string   // non-empty: function outside the supported subset
@@ -359,7 +362,29 @@ func (fv *funcVerifier) prescan(body *ast.BlockStmt) {
 			})
 			inLit--
 			return false
+		case *ast.CallExpr:
+			// copy(x[:], src) with x a local array variable: modelled as an update of the
+			// array value (no aliasing is created because the slice does not escape)
+			if id, ok := ast.Unparen(x.Fun).(*ast.Ident); ok && id.Name == "copy" && len(x.Args) == 2 {
+				if _, isBuiltin := fv.info.Uses[id].(*types.Builtin); isBuiltin {
+					if se, ok := ast.Unparen(x.Args[0]).(*ast.SliceExpr); ok && se.Low == nil && se.High == nil && se.Max == nil {
+						if aid, ok := ast.Unparen(se.X).(*ast.Ident); ok {
+							if v, ok := fv.info.Uses[aid].(*types.Var); ok && !v.IsField() && v.Pkg() != nil && v.Parent() != v.Pkg().Scope() {
+								if _, isArr := v.Type().Underlying().(*types.Array); isArr && inLit == 0 {
+									if fv.copyArr == nil {
+										fv.copyArr = map[*ast.SliceExpr]*types.Var{}
+									}
+									fv.copyArr[se] = v
+								}
+							}
+						}
+					}
+				}
+			}
 		case *ast.SliceExpr:
+			if fv.copyArr[x] != nil {
+				return true
+			}
 			// slicing an array-typed variable aliases it
 			if tv, ok := fv.info.Types[x.X]; ok {
 				if _, isArr := tv.Type.Underlying().(*types.Array); isArr {
